@@ -234,7 +234,7 @@ def check_call(sh, h, cfg, case):
 
 
 # --------------------------------------------------------------- part B
-FIELD_VALUES = [0, 1, 'a', 'lorem ipsum dolor sit amet, consectetur', None, [1, 2], {'k': [1]}, (1,), 2.5]
+FIELD_VALUES = [0, 1, 'a', 'lorem ipsum dolor sit amet, consectetur', None, [1, 2], {'k': [1]}, (1,), 2.5, 10 ** 12, ('nightly', 'linux')]
 _defs = {}
 
 
@@ -299,6 +299,20 @@ def gen_spec(rng, lib, uid):
             'slots': rng.random() < 0.3, 'kw_only': kw_only, 'eq': rng.random() < 0.8}
 
 
+def equal_copy(v):
+    """an object equal to v but not identical to it (where the type allows)"""
+    import copy
+    if isinstance(v, str):
+        return ''.join(list(v)) if len(v) > 1 else v
+    if isinstance(v, float):
+        return float(repr(v))
+    if isinstance(v, tuple):
+        return tuple(list(v))
+    if isinstance(v, int) and not isinstance(v, bool):
+        return int(str(v))
+    return copy.deepcopy(v)
+
+
 def instances(spec, cls, rng, quick):
     """every subset of fields at their default (sampled beyond 5 fields); non-default values drawn to differ from the default"""
     fs = spec['fields']
@@ -312,6 +326,9 @@ def instances(spec, cls, rng, quick):
         visible = []
         for i, (fname, kind, default, rep) in enumerate(fs):
             if i in at_default:
+                if rng.random() < 0.35:
+                    # pass the default explicitly as an equal but distinct object: still "does not differ from the default"
+                    kwargs[fname] = equal_copy(default)
                 continue
             val = rng.choice([v for v in FIELD_VALUES if v != default or kind == 'none'])
             kwargs[fname] = val
